@@ -466,6 +466,14 @@ class Twin(object):
         if len(chunk) == 0 and a == ("err", "client-AssertionError") and a != b:
             known = KNOWN_KINDS["zero-write"]
         agree = self.compare(kind, args, a, b, known=known)
+        if known == KNOWN_KINDS["zero-write"] and in_progress and b[0] == "ok":
+            # knock-on of that finding: the empty write reached only the direct server and refreshed its
+            # bucket's 30-minute upload timeout.  Re-align B's deadline with A's, otherwise a later
+            # clock advance times the upload out on one server only.
+            wa, wb = self.find_writer(self.A.ss, key), self.writersB.get(key)
+            if wa is not None and wb is not None and wa._timeout.active() and wb._timeout.active():
+                wb._timeout.reset(max(0, wa._timeout.getTime() - self.clock.seconds()))
+                self.ctx.count("timeout-realigned-after-empty-write")
         if b[0] == "ok" and b[1][0]:
             # what the share really holds (an accepted "conflicting" chunk on unwritten ground is part of it)
             self.complete[key] = self.B.get_buckets(si)[sh].read(0, size)
@@ -549,6 +557,14 @@ class Twin(object):
             self.do_write(key, 0, bad, "write-conflicting")
         else:
             self.do_write(key, 1, data[1:] + b"\x07" * 3, "write-too-large")
+
+    def find_writer(self, ss, key):
+        from allmydata.storage.common import si_b2a
+        tail = "/%s/%d" % (si_b2a(key[0]).decode("ascii"), key[1])
+        for home, bw in ss._bucket_writers.items():
+            if home.endswith(tail):
+                return bw
+        return None
 
     def writer_state(self, ss, key):
         from allmydata.storage.common import si_b2a
@@ -989,4 +1005,6 @@ def replay(ctx, rec):
     step = case.get("step", 0)
     step = step if isinstance(step, int) else 0       # "scenario-...": the fixed scenarios at the start of every history
     t.run(min(step + 1, 100000))
-    return {"history": case["history"], "steps_run": step + 1, "failures": [(f["kind"], f["what"][:200]) for f in ctx.failures]}
+    known = sorted(set(f["kind"] for f in ctx.failures if f["kind"] in KNOWN_KINDS.values()))
+    ctx.failures[:] = [f for f in ctx.failures if f["kind"] not in KNOWN_KINDS.values()]   # recorded findings are not re-reported
+    return {"history": case["history"], "steps_run": step + 1, "known_findings_seen": known, "failures": [(f["kind"], f["what"][:200]) for f in ctx.failures]}
